@@ -377,7 +377,7 @@ def check_doc(case):
         nt = doc_observe(doc, flists, names, "built document", labels)
         text = doc.dump()
         doc2 = C.Copyright(io.StringIO(text))
-        doc_observe(doc2, flists, names, "re-read document %r" % text, set())
+        doc_observe(doc2, flists, names, "re-read document %s" % short(text, 200), set())
     else:
         chunks = [FORMAT]
         for e in norm:
@@ -387,7 +387,7 @@ def check_doc(case):
                 chunks.append("License: %s\n text\n" % e[1])
         text = "\n".join(chunks)
         doc = C.Copyright(io.StringIO(text))
-        nt = doc_observe(doc, flists, names, "document %r" % text, labels)
+        nt = doc_observe(doc, flists, names, "document %s" % short(text, 200), labels)
     return (nt and len(flists) >= 2, sorted(labels))
 
 
@@ -395,16 +395,16 @@ def doc_observe(doc, flists, names, where, labels):
     ps = list(doc.all_files_paragraphs())
     if len(ps) != len(flists):
         raise Violation("files-field-misread", "%s: %d Files paragraphs, expected %d"
-                        % (short(where, 200), len(ps), len(flists)))
+                        % (where, len(ps), len(flists)))
     for p, fl in zip(ps, flists):
-        readback(p, fl, short(where, 200))
+        readback(p, fl, where)
     refs = [Ref(fl) for fl in flists]
     some_illegal = any(not r.legal for r in refs)
     if some_illegal:
         labels.add("doc:has-illegal-pattern")
     # each paragraph on its own first: a wrong matches() keeps its own root-cause signature
     for i, (p, r) in enumerate(zip(ps, refs)):
-        observe(p, r, names, "Files paragraph %d of %s" % (i, short(where, 200)))
+        observe(p, r, names, "Files paragraph %d of %s" % (i, where))
     nontrivial = False
     for name in names:
         hits = [i for i, r in enumerate(refs) if r.legal and r.matches(name)]
@@ -414,7 +414,7 @@ def doc_observe(doc, flists, names, where, labels):
         except C.MachineReadableFormatError:
             if not some_illegal:
                 raise Violation("legal-pattern-rejected", "%s: find_files_paragraph(%r) raised"
-                                % (short(where, 200), name))
+                                % (where, name))
             labels.add("format-error-reported")
             continue
         if got is None:
@@ -424,7 +424,7 @@ def doc_observe(doc, flists, names, where, labels):
             if not gi:
                 raise Violation("find-returned-foreign-object",
                                 "%s: find_files_paragraph(%r) returned %r which is not one of the "
-                                "document's Files paragraphs" % (short(where, 200), name, got))
+                                "document's Files paragraphs" % (where, name, got))
             gi = gi[0]
         if gi != exp:
             if gi is None:
@@ -435,7 +435,7 @@ def doc_observe(doc, flists, names, where, labels):
                 sig = "find-returned-non-matching-paragraph"
             raise Violation(sig, "%s: find_files_paragraph(%r) gave Files paragraph %r %r, the last "
                             "matching one is %r (matching: %r)"
-                            % (short(where, 240), name, gi,
+                            % (where, name, gi,
                                flists[gi] if gi is not None else None, exp, hits))
         if exp is None:
             labels.add("doc:no-paragraph-matches")
